@@ -121,17 +121,34 @@ theorem mem_setInsert_of_mem (l : List String) (k n : String) (h : n ∈ l) : n 
   · exact h
   · simp [h]
 
+theorem nodup_setInsert (l : List String) (k : String) (h : l.Nodup) : (setInsert l k).Nodup := by
+  unfold setInsert
+  split
+  · exact h
+  · rename_i hk
+    have hk' : k ∉ l := by simpa using hk
+    rw [List.nodup_append]
+    refine ⟨h, by simp, ?_⟩
+    intro a ha b hb
+    simp at hb
+    subst hb
+    intro hab
+    subst hab
+    exact hk' ha
+
 structure Vars where
   globals : List (String × Val)
   base : List (String × Val)
   batchObserving : Bool
   changed : List String
   inv : ∀ n, batchObserving = true → alGet globals n ≠ alGet base n → n ∈ changed
+  nodup : changed.Nodup
 
 namespace Vars
 
 def empty : Vars :=
-  { globals := [], base := [], batchObserving := false, changed := [], inv := by intro n h; cases h }
+  { globals := [], base := [], batchObserving := false, changed := [], inv := (by intro n h; cases h),
+    nodup := List.nodup_nil }
 
 def get (v : Vars) (name : String) : Option Val := alGet v.globals name
 
@@ -143,7 +160,7 @@ def set (v : Vars) (name : String) (val : Val) : Vars × Bool :=
   if hb : v.batchObserving = true then
     ({ globals := alSet v.globals name val, base := v.base, batchObserving := true,
        changed := setInsert v.changed name,
-       inv := by
+       inv := (by
          intro n _ hne
          by_cases hn : (name == n) = true
          · have : name = n := by simpa using hn
@@ -151,26 +168,27 @@ def set (v : Vars) (name : String) (val : Val) : Vars × Bool :=
            exact mem_setInsert_self _ _
          · have hn' : (name == n) = false := by simpa using hn
            rw [alGet_alSet_ne _ _ _ _ hn'] at hne
-           exact mem_setInsert_of_mem _ _ _ (v.inv n hb hne) }, false)
+           exact mem_setInsert_of_mem _ _ _ (v.inv n hb hne)),
+       nodup := nodup_setInsert _ _ v.nodup }, false)
   else
     ({ globals := alSet v.globals name val, base := v.base, batchObserving := false, changed := v.changed,
-       inv := by intro n h; cases h }, true)
+       inv := (by intro n h; cases h), nodup := v.nodup }, true)
 
 /-- `start_variable_observation` -/
 def startObservation (v : Vars) : Vars :=
   { globals := v.globals, base := v.globals, batchObserving := true, changed := [],
-    inv := by intro n _ h; exact absurd rfl h }
+    inv := (by intro n _ h; exact absurd rfl h), nodup := List.nodup_nil }
 
 /-- `complete_variable_observation`: the changed names, and the store with the batch closed. -/
 def completeObservation (v : Vars) : List String × Vars :=
   (if v.batchObserving then v.changed else [],
    { globals := v.globals, base := v.base, batchObserving := false, changed := [],
-     inv := by intro n h; cases h })
+     inv := (by intro n h; cases h), nodup := List.nodup_nil })
 
 /-- Replace all globals (loading a save). -/
 def replaceGlobals (v : Vars) (gl : List (String × Val)) : Vars :=
   { globals := gl, base := gl, batchObserving := v.batchObserving, changed := v.changed,
-    inv := by intro n _ h; exact absurd rfl h }
+    inv := (by intro n _ h; exact absurd rfl h), nodup := v.nodup }
 
 end Vars
 
